@@ -299,6 +299,9 @@ pub fn gen_case(seed: u64, kind: &'static str, profile: Profile, len: usize, whi
         if pick(p_ins) {
             let k = key(&mut rng);
             let v = rng.below(12);
+            if white_box {
+                out.push(format!("freq {}", k));
+            }
             push(&mut out, format!("ins {} {}", k, v));
         } else if pick(p_get) {
             let k = key(&mut rng);
